@@ -9,6 +9,7 @@ EXPLANATION = (
     "[associated_data, nonce] as SIV headers on both encrypt and decrypt, and decrypt the given ciphertext; fields are "
     "promoted to authenticated/encrypted and a cookie is retained only on the Ok edge of decrypt, a failure marks the packet "
     "invalid (Err(DecryptError)); KeySet::get yields no cipher for a second cookie or a cookie that fails to decode."
+    " RawEncryptedField::decrypt reports success only past a successful cipher.decrypt, and the AES-SIV impls return the primitive's verdict."
 )
 NOT_DECIDED = ["the security of AES-SIV itself", "bit-level boundary behaviour of the authenticator's own padding bytes"]
 EF = 'ntp_proto::packet::extension_fields'
